@@ -13,5 +13,6 @@ Unit(k) == [m \in 1..NN |-> IF m = k + 1 THEN 1 ELSE 0]
 NTTOnBasis == phase = 1 =>
   /\ NTT(Unit(n)) = [m \in 1..NN |-> PowMod(EvalPoints[m], n)]
   /\ \A k \in {0, 1, n, 255} : InvNTTAt(NTT(Unit(n)), k) = (IF k = n THEN 1 ELSE 0)
+  /\ InvNTT(NTT(Unit(n))) = Unit(n)          \* the inverse network inverts it (again on a basis of a linear map)
 PointsAreRoots == phase = 0 => \A m \in 1..NN : PowMod(EvalPoints[m], 256) = Q - 1 /\ MulMod(EvalPoints[m], InvPoints[m]) = 1
 =============================================================================
